@@ -34,6 +34,9 @@ def run(ctx, chk, tier="quick"):
     )
     chk.assumptions = ["scipy.integrate.quad integrates its first argument between its 2nd and 3rd",
                        "identifier suffixes state units; `curvature_km` means km^-1 (override table)"]
+    from ..sqlrules import lossy_functions
+    lossy_functions(ctx, chk, "C18.O3", ("simulate_recession",), "simulate_recession",
+                    "the level column is both the grid of the integration and the first column of the table: rounded levels give zero-width and double-width cells and attach measured times to other levels")
     from .. import sqltypes
     sqltypes.check(ctx, chk, "C18.O3", modules=("simulate_recession",), views=("average_recession_time",))
     f = ctx.func("simulate_recession.compute_recession_curve")
